@@ -45,6 +45,7 @@ METHODS = [
     "Mark: a\nBogus",
     "Set1: 5\nPause\nWait: 100s",
     "Set1: 5\nPause: 0.6s\nWait: 100s",          # a timed Pause long enough to be un-paused by the user before it expires
+    "Set1: 7\nWait: 0.2s\nUnpause\nWait: 100s",          # an Unpause instruction of the method: executes although the run is not paused
 ]
 # seed histories (abstract events): what happened before the enumerated suffix
 SEEDS = [
@@ -340,7 +341,7 @@ def explore(item):
 
 DEEPER = [(0, 0), (3, 0)]          # (method, seed) explored one level deeper in the thorough tier
 # quick tier: every seed on the plain method, the other methods on the fresh engine and on the seeds they add something to
-QUICK_COMBOS = [(0, 0), (0, 1), (0, 2), (0, 3), (0, 4), (1, 0), (1, 4), (2, 0), (2, 2), (2, 3), (3, 0), (3, 4), (4, 5)]
+QUICK_COMBOS = [(0, 0), (0, 1), (0, 2), (0, 3), (0, 4), (1, 0), (1, 4), (2, 0), (2, 2), (2, 3), (3, 0), (3, 4), (4, 5), (5, 0), (5, 2), (5, 3)]
 ONLY_WITH = {5: (4,), 6: (), 7: (), 8: ()}            # seed -> methods it makes sense for
 
 
